@@ -428,11 +428,34 @@ def cases(tier, seed):
 # building both sides from the one description
 
 
+_TMP = []
+
+
 def shard_setup(tier, seed):
+    """once per shard: pyarrow stub + dask.dataframe; a private directory for the disk shuffle's partd files
+    (dask leaves one ``*.partd`` directory per disk shuffle behind), removed when the shard ends."""
+    import atexit
+    import shutil
+    import tempfile
+
     from vf.gen import frames
 
     frames.setup()
     warnings.simplefilter("ignore")
+    import dask
+
+    d = tempfile.mkdtemp(prefix="vf-c38partd-")
+    _TMP.append(d)
+    dask.config.set(temporary_directory=d)
+    atexit.register(shutil.rmtree, d, True)
+
+
+def shard_finish():
+    import shutil
+
+    for d in _TMP:
+        shutil.rmtree(d, ignore_errors=True)
+    return {}
 
 
 def _frame(case):
